@@ -133,6 +133,17 @@ def run(ctx):
     ctx.sample(cases[7])
     ctx.sample(cases[-3])
     ctx.exhaustive = True
+    # frequency and histogram counts agree on the same events: the hist and freq diagrams of Diagrams.tla (C16's generator and projection)
+    from harness.checks import c16
+    res2 = tlc.run("MC_Diagrams", "MC_Diagrams_C12", tag=ctx.pid + "_diagrams", timeout_s=1500)
+    ctx.add_tlc("MC_Diagrams/C12 (hist, freq)", res2)
+    hcases = [c for c in res2.emitted if c["diagram"] in ("hist", "freq")]
+    for n, divs in par.pmap(c16._check_chunk, [hcases[i:i + 6] for i in range(0, len(hcases), 6)], chunk=1):
+        ctx.evaluations += n
+        for site, detail, rep in divs:
+            ctx.diverge(site, rep, detail=detail)
+    ctx.traces += len(hcases)
+    par.clean_workdirs()
     if ctx.tier == "thorough":
         _apalache(ctx)
 
